@@ -137,12 +137,30 @@ func (c *Ctx) ruleFlagTable() {
 
 	// ---- the value each field gets from the flags: the returned New(...) in ParseFlagsFromFlagSet
 	nOther := 0
-	allInstrs(parse, func(b *ssa.BasicBlock, ins ssa.Instruction) {
+	var flagReturns func(in *ssa.Function, pins pinMap, depth int)
+	var flagReturn func(b *ssa.BasicBlock, ins ssa.Instruction, pins pinMap, depth int)
+	flagReturns = func(in *ssa.Function, pins pinMap, depth int) {
+		allInstrs(in, func(b *ssa.BasicBlock, ins ssa.Instruction) {
+			P.PinnedAll(pins, func() { flagReturn(b, ins, pins, depth) })
+		})
+	}
+	flagReturn = func(b *ssa.BasicBlock, ins ssa.Instruction, pins pinMap, depth int) {
 		r, ok := ins.(*ssa.Return)
 		if !ok || len(r.Results) != 1 {
 			return
 		}
 		call, ok := r.Results[0].(*ssa.Call)
+		// the configuration built in a helper (`return fromFlagValues(fs)`): its returns, in the context of this call
+		if ok && depth < 3 {
+			if callee := call.Call.StaticCallee(); callee != nil && callee != newFn && callee != fromEnv && P.IsProductFunc(callee) && !P.isAnchor(callee) && len(callee.Blocks) > 0 && pins[callee] == nil {
+				np := pinMap{callee: call}
+				for k, v := range pins {
+					np[k] = v
+				}
+				flagReturns(callee, np, depth+1)
+				return
+			}
+		}
 		if !ok || call.Call.StaticCallee() != newFn {
 			// a result that is not built from the flag values: right for a nil flag set only ("the flag if given")
 			nilSet := false
@@ -250,7 +268,8 @@ func (c *Ctx) ruleFlagTable() {
 			c.check(okL, "FLAG-VALUE", fl, where, "list = parseStringList(value of flag "+fl+"), "+what,
 				"the "+fl+" list is not parseStringList(<flag value>, toUpper="+fmt.Sprint(fl == "exclude-checks")+"): "+short(P.Desc(a[i+1])))
 		}
-	})
+	}
+	flagReturns(parse, pinMap{}, 0)
 
 	// ---- environment
 	envRead := map[string]string{} // env name -> how
